@@ -155,7 +155,7 @@ Theorem C20_history_independent : forall slack (H : bytes -> bytes) cs h known,
   Forall (valid h) known ->
   let '(rs, hf, kf) := run_calls slack H h known cs in
   Forall (call_ok H) rs /\ Forall (valid hf) kf.
-Proof. exact (fun slack H cs h known => run_calls_spec slack H cs h known). Qed.
+Proof. exact run_calls_spec'. Qed.
 Print Assumptions C20_history_independent.
 
 Theorem C20_history_empty_destination_is_hash : forall slack (H : bytes -> bytes) cs h known,
@@ -171,5 +171,5 @@ Print Assumptions C20_history_empty_destination_is_hash.
    the destination, encodes into a buffer obtained from make alone, and returns
    that buffer; Hash passes nil. *)
 Theorem C20_tail_is_as_modelled : caps_tail = tail_as_modelled /\ caps_hash_dst = TNil.
-Proof. exact (conj tbl_tail tbl_hash_dst). Qed.
+Proof. exact tail_tables. Qed.
 Print Assumptions C20_tail_is_as_modelled.
